@@ -211,3 +211,7 @@ Example tr_BSWL_scale_ex :
   tr_BSWL_scale [ex_ep 3 1; ex_ep 700 1; ex_ep (-5) 1] 100 0 700
   = Next (100, [pair_of (1%nat, 100)], [(1, 100)], [0; 2]).
 Proof. vm_compute. reflexivity. Qed.
+Example tr_BSWL_scale_ex_hyp :
+  Forall (fun e => int32 (go_endpoint_Endpoint_Weight e) /\ go_endpoint_Endpoint_Weight e <= 700) [ex_ep 3 1; ex_ep 700 1; ex_ep (-5) 1] /\
+  0 < 700 <= 2147483647 /\ 0 <= 100 <= 100 /\ 0 <= 0 <= 1 /\ Z.of_nat (length [ex_ep 3 1; ex_ep 700 1; ex_ep (-5) 1]) <= 2147483647.
+Proof. unfold int32. repeat split; repeat constructor; cbn; lia. Qed.
